@@ -23,7 +23,7 @@ STARTS = ("absent", "date", "floating", "utc", "zoned-dst", "zoned", "zoned-date
 ENDS = ("absent", "explicit", "dur-days", "dur-time", "dur-zero")
 TRIGGERS = ("absent", "PT0S", "-PT15M", "PT5H", "-P1D", "P1D", "abs-utc", "abs-zoned", "-P7D", "P14D", "-PT1H0M22S")
 RELATED = (None, "START", "END", "end", "Start")  # unquoted parameter values are case-insensitive
-REPDUR = ((None, None), (0, "PT5M"), (2, "PT5M"), (2, None), (None, "PT5M"), (1, "P1D"), (3, "PT24H"), (2, "PT0S"), (1, "P7D"), (2, "PT45S"))
+REPDUR = ((None, None), (0, "PT5M"), (2, "PT5M"), (2, None), (None, "PT5M"), (1, "P1D"), (3, "PT24H"), (2, "PT0S"), (1, "P7D"), (2, "PT45S"), (101, "PT5M"), (250, "PT45S"))
 TD = {"PT0S": timedelta(0), "-PT15M": timedelta(minutes=-15), "PT5H": timedelta(hours=5), "-P1D": timedelta(days=-1),
       "P1D": timedelta(days=1), "PT5M": timedelta(minutes=5), "PT24H": timedelta(hours=24), "-P7D": timedelta(days=-7),
       "P14D": timedelta(days=14), "-PT1H0M22S": timedelta(hours=-1, seconds=-22), "P7D": timedelta(days=7), "PT45S": timedelta(seconds=45)}
@@ -230,7 +230,7 @@ REDUCED = [(t, r, rd) for t in ("-PT15M", "PT5H", "-P1D", "abs-utc") for r in (N
 
 def run(ctx):
     ctx.rule = ("E-enum: {VEVENT,VTODO} x 10 start kinds (incl. instances of user subclasses of date / datetime) x 5 end kinds (incl. a zero DURATION) x all single alarms TRIGGER(11) x RELATED(5) x "
-                "(REPEAT,DURATION)(10, incl. a zero DURATION, whole weeks, seconds) x {API-built, parsed, parsed with explicit plus signs on durations, parsed with whole weeks in week form} x {zoneinfo, pytz}; plus all ordered pairs over a reduced menu of "
+                "(REPEAT,DURATION)(12, incl. REPEAT 101 and 250, a zero DURATION, whole weeks, seconds) x {API-built, parsed, parsed with explicit plus signs on durations, parsed with whole weeks in week form} x {zoneinfo, pytz}; plus all ordered pairs over a reduced menu of "
                 f"{len(REDUCED)} alarm shapes" + ("" if ctx.quick else " and all triples over 8 shapes") +
                 "; E-hist: the alarms of a component handed to the Alarms object after the parent, before it, or partly with it (add_alarm / add_component alternating): same times. non-trivial = at least one alarm has a TRIGGER.")
     ctx.bounds = {"starts": STARTS, "ends": ENDS, "triggers": TRIGGERS, "related": [str(r) for r in RELATED],
